@@ -30,8 +30,8 @@ def run(model, rep, tier):
 
 # ------------------------------------------------------------------------------------------
 
-def r1_who_may_call(ctx, rep):
-    rep.rule('C01.R1', 'layer setUp is invoked only in runner.setup_layer and layer tearDown only '
+def r1_who_may_call(ctx, rep, R='C01.R1'):
+    rep.rule(R, 'layer setUp is invoked only in runner.setup_layer and layer tearDown only '
              'in runner.tear_down_unneeded (a second site bypasses the bookkeeping)')
     allowed = {'setUp': 'runner.setup_layer', 'tearDown': 'runner.tear_down_unneeded'}
     found = {'setUp': 0, 'tearDown': 0}
@@ -41,14 +41,14 @@ def r1_who_may_call(ctx, rep):
             good = fi.qualname == allowed[h]
             if good:
                 found[h] += 1
-            rep.check(good, 'C01.R1', '%s call in %s' % (h, fi.qualname),
+            rep.check(good, R, '%s call in %s' % (h, fi.qualname),
                       'layer %s() is called outside %s' % (h, allowed[h]),
                       key=norm(c), where=ctx.where(fi, c), func=fi.qualname)
     for h in found:
-        rep.check(found[h] == 1, 'C01.R1', 'exactly one %s site in %s' % (h, allowed[h]),
+        rep.check(found[h] == 1, R, 'exactly one %s site in %s' % (h, allowed[h]),
                   'found %d call sites of layer %s() in %s' % (found[h], h, allowed[h]),
                   key='count:' + h, func=allowed[h])
-    rep.floor('C01.R1', found['setUp'] + found['tearDown'], 2, 'hook call sites')
+    rep.floor(R, found['setUp'] + found['tearDown'], 2, 'hook call sites')
 
 
 def _hook_site(ctx, fi, hook):
@@ -58,8 +58,7 @@ def _hook_site(ctx, fi, hook):
     return cs[0], cs[0].func.value.id
 
 
-def r2_setup_layer(ctx, rep):
-    R = 'C01.R2'
+def r2_setup_layer(ctx, rep, R='C01.R2'):
     rep.rule(R, 'setup_layer: setUp only while the layer is not marked set up, after all its bases '
              'were set up recursively; the layer is marked on every normal path after setUp and '
              'never on a path where setUp raised')
@@ -171,8 +170,7 @@ def r2_setup_layer(ctx, rep):
     rep.floor(R, len(S) + len(marks), 2, 'setUp/mark sites')
 
 
-def r3_tear_down(ctx, rep):
-    R = 'C01.R3'
+def r3_tear_down(ctx, rep, R='C01.R3'):
     rep.rule(R, 'tear_down_unneeded: iterates reverse(order_by_bases(set-up layers not needed)); '
              'forgets the layer exactly once on every path after tearDown, exceptional ones '
              'included; NotImplementedError raises CanNotTearDown iff not optional and is not an '
@@ -330,8 +328,7 @@ def _provenance(fi, for_stmt):
     return None
 
 
-def r4_run_layer(ctx, rep):
-    R = 'C01.R4'
+def r4_run_layer(ctx, rep, R='C01.R4'):
     rep.rule(R, 'run_layer: gather needed layers -> tear down unneeded -> set up -> run tests, in '
              'this order on every path; tests never run after a failed set-up')
     fi = ctx.model.func('runner.run_layer')
@@ -429,8 +426,7 @@ def _run_tests_cfg(ctx, fi, resume_layer=None):
     return ctx.cfg(fi, Catalogue(src), branch_oracle=branch)
 
 
-def r5_after_cannot_teardown(ctx, rep):
-    R = 'C01.R5'
+def r5_after_cannot_teardown(ctx, rep, R='C01.R5'):
     rep.rule(R, 'Runner.run_tests: after CanNotTearDown (parent process) no further run_layer in '
              'this process; the unfinished layer stays queued and is handed to resume_tests; the '
              'child keeps only its own layer')
@@ -504,8 +500,7 @@ def r5_after_cannot_teardown(ctx, rep):
               key='child-only-own-layer', func=ff.qualname, where=ctx.where(ff, ff.node))
 
 
-def r6_final_teardown(ctx, rep):
-    R = 'C01.R6'
+def r6_final_teardown(ctx, rep, R='C01.R6'):
     rep.rule(R, 'Runner.run_tests: every path to the exit tears down the left-over layers with '
              'needed=<empty>, optional=True (only an empty map may skip it)')
     fi = ctx.model.func('runner.Runner.run_tests')
